@@ -161,6 +161,45 @@ type Emb1 struct {
 	EB1 string
 }
 
+// EmbD0 is Emb0 with a default on the inner int field (a v2 of Emb0).
+type EmbD0 struct {
+	EA0 int `gorm:"default:7"`
+	EB0 string
+}
+
+// Twins embeds the same struct twice with different prefixes: two columns
+// share each Go field name (EA0, EB0). TwinsH/TwinsW/TwinsB are its v2
+// variants in which the inner field of Home / Work / both gained a default.
+type Twins struct {
+	Home Emb0 `gorm:"embedded;embeddedPrefix:home_"`
+	Work Emb0 `gorm:"embedded;embeddedPrefix:work_"`
+}
+type TwinsH struct {
+	Home EmbD0 `gorm:"embedded;embeddedPrefix:home_"`
+	Work Emb0  `gorm:"embedded;embeddedPrefix:work_"`
+}
+type TwinsW struct {
+	Home Emb0  `gorm:"embedded;embeddedPrefix:home_"`
+	Work EmbD0 `gorm:"embedded;embeddedPrefix:work_"`
+}
+type TwinsB struct {
+	Home EmbD0 `gorm:"embedded;embeddedPrefix:home_"`
+	Work EmbD0 `gorm:"embedded;embeddedPrefix:work_"`
+}
+
+// twinCell: home_ea0, home_eb0, work_ea0, work_eb0 of any Twins* value.
+func twinCell(v interface{}) []interface{} {
+	rv := reflect.ValueOf(v)
+	var out []interface{}
+	for _, half := range []string{"Home", "Work"} {
+		h := rv.FieldByName(half)
+		out = append(out, h.FieldByName("EA0").Int(), h.FieldByName("EB0").String())
+	}
+	return out
+}
+
+var twinCols = []string{"home_ea0", "home_eb0", "work_ea0", "work_eb0"}
+
 // ---------------------------------------------------------------------------
 // key configurations
 
@@ -246,9 +285,28 @@ type Spec struct {
 	Auto          int         // auto create/update time unit
 	Serializer    string      // json | gob | unixtime
 	MapRaw        bool        // in map creates pass the cells, not the Go value
-	// MigrateSkip: reason why this kind is not used as an *added* column in C20
-	// (empty = usable).
-	Unsigned bool
+	Unsigned      bool
+	// NoColumn: the field is excluded from the table (`-`, `-:all`,
+	// `->;-:migration`): nothing is stored, nothing is read back.
+	NoColumn bool
+	// GhostColTmpl: column names that must NEVER exist for a NoColumn field.
+	GhostColTmpl []string
+	// Alters: v2 variants of this field that ALTER one of its existing columns
+	// (same Go field name, same columns; e.g. a default is added). They are
+	// not part of Specs; SpecByName finds them.
+	Alters []*Spec
+	// DefaultCols (on a variant): columns that carry a default once the
+	// variant is migrated; all other columns of the field carry none.
+	DefaultCols []string
+}
+
+// GhostCols: see GhostColTmpl.
+func (s *Spec) GhostCols(slot int) []string {
+	out := make([]string, len(s.GhostColTmpl))
+	for i, c := range s.GhostColTmpl {
+		out[i] = subst(c, slot)
+	}
+	return out
 }
 
 func (s *Spec) Type(slot int) reflect.Type { return s.Types[slot] }
@@ -524,6 +582,34 @@ func buildSpecs() []*Spec {
 	add(&Spec{Name: "embedded_ptr", Types: embPtrTypes, TagTmpl: "embedded;embeddedPrefix:q%d_", ColTmpl: []string{"q%d_ea%d", "q%d_eb%d"},
 		Values: []Val{v("nil", (*Emb0)(nil)), v("&zero", &Emb0{}), v("&full", &Emb0{EA0: 4, EB0: "pe"})}, Cells: embCell, MapRaw: true})
 
+	// the same struct embedded twice with different prefixes
+	twin := func(name string, zero interface{}, vals ...Val) *Spec {
+		return &Spec{Name: name, Types: same(reflect.TypeOf(zero)), TagTmpl: "embedded", FieldName: "Tw", ColTmpl: twinCols, Values: vals, Cells: twinCell, MapRaw: true}
+	}
+	tw := twin("embedded_twins", Twins{}, v("zero", Twins{}), v("full", Twins{Home: Emb0{EA0: 1, EB0: "h'"}, Work: Emb0{EA0: 2, EB0: "w"}}),
+		v("home-only", Twins{Home: Emb0{EA0: 3, EB0: "hh"}}), v("work-only", Twins{Work: Emb0{EA0: 4, EB0: "ww"}}))
+	tw.Alters = []*Spec{
+		with(twin("embedded_twins+default_on_home", TwinsH{}, v("full", TwinsH{Home: EmbD0{EA0: 1, EB0: "h'"}, Work: Emb0{EA0: 2, EB0: "w"}}), v("work-zero", TwinsH{Home: EmbD0{EA0: 5}})),
+			func(s *Spec) { s.DefaultCols = []string{"home_ea0"} }),
+		with(twin("embedded_twins+default_on_work", TwinsW{}, v("full", TwinsW{Home: Emb0{EA0: 1, EB0: "h'"}, Work: EmbD0{EA0: 2, EB0: "w"}}), v("home-zero", TwinsW{Work: EmbD0{EA0: 6}})),
+			func(s *Spec) { s.DefaultCols = []string{"work_ea0"} }),
+		with(twin("embedded_twins+default_on_both", TwinsB{}, v("full", TwinsB{Home: EmbD0{EA0: 1, EB0: "h'"}, Work: EmbD0{EA0: 2, EB0: "w"}})),
+			func(s *Spec) { s.DefaultCols = []string{"home_ea0", "work_ea0"} }),
+	}
+	add(tw)
+
+	// --- fields excluded from the table -------------------------------------
+	for _, x := range [][2]string{{"ignored_migration", "->;-:migration"}, {"ignored_dash", "-"}, {"ignored_all", "-:all"}} {
+		add(with(plain(x[0], "", v("empty", ""), v("x", "x")), func(s *Spec) {
+			s.TagTmpl = x[1]
+			s.ColTmpl = nil
+			s.GhostColTmpl = []string{"f%d"}
+			s.NoColumn = true
+			s.MapRaw = true
+			s.Cells = func(interface{}) []interface{} { return nil }
+		}))
+	}
+
 	// --- column rename -----------------------------------------------------
 	add(with(plain("column_rename", "", v("empty", ""), v("x", "x"), v("quote", "r'n")), func(s *Spec) {
 		s.TagTmpl = "column:Ren_%d"
@@ -627,10 +713,59 @@ func buildSpecs() []*Spec {
 	return out
 }
 
+// addDefaultVariants gives every plain single-column kind without default,
+// serializer or auto time a v2 variant in which a literal default is added to
+// the existing column ("<kind>+default").
+func addDefaultVariants(specs []*Spec) {
+	for _, sp := range specs {
+		if len(sp.ColTmpl) != 1 || sp.NoColumn || sp.Serializer != "" || sp.Auto != AutoNone || sp.DBDefault || sp.DefaultLit != nil || len(sp.Alters) > 0 {
+			continue
+		}
+		var lit string
+		var val interface{}
+		t := sp.Types[0]
+		switch t.Kind() {
+		case reflect.Int, reflect.Int8, reflect.Int16, reflect.Int32, reflect.Int64:
+			if _, isValuer := reflect.New(t).Interface().(driver.Valuer); isValuer {
+				continue
+			}
+			lit, val = "7", reflect.ValueOf(7).Convert(t).Interface()
+		case reflect.Uint, reflect.Uint8, reflect.Uint16, reflect.Uint32, reflect.Uint64:
+			lit, val = "7", reflect.ValueOf(7).Convert(t).Interface()
+		case reflect.Float32, reflect.Float64:
+			lit, val = "2.5", reflect.ValueOf(2.5).Convert(t).Interface()
+		case reflect.Bool:
+			lit, val = "true", true
+		case reflect.String:
+			lit, val = "'dd'", "dd"
+		default:
+			continue
+		}
+		c := *sp
+		c.Name = sp.Name + "+default"
+		c.TagTmpl = sp.TagTmpl
+		if c.TagTmpl != "" {
+			c.TagTmpl += ";"
+		}
+		c.TagTmpl += "default:" + lit
+		c.DefaultLit = val
+		c.DefaultCols = sp.ColTmpl
+		c.Alters = nil
+		sp.Alters = []*Spec{&c}
+	}
+}
+
+func init() { addDefaultVariants(Specs) }
+
 func SpecByName(n string) *Spec {
 	for _, s := range Specs {
 		if s.Name == n {
 			return s
+		}
+		for _, a := range s.Alters {
+			if a.Name == n {
+				return a
+			}
 		}
 	}
 	return nil
